@@ -48,10 +48,13 @@ package lttb
 //@   ghost preCur int
 //@   ghost curStart int
 //@   before call it: ghost preCur = icur(it)
+//@   ghost iterr ref = 0
+//@   at call it: ghost iterr = ref(result1)
 //@   at store current: ghost curStart = (len(samples) == 1 ? 1 : preCur)
 //@   at call sample: ghost six(len(samples)) = curStart + callee_j
 //@   ensures [unchanged-at-or-below-threshold] (threshold >= count || threshold == 0) && err == nil ==> len(out) == count &&
 //@              (forall k int :: 0 <= k && k < count ==> out[k].X == px(it, k) && out[k].Y == py(it, k))
+//@   ensures [at-or-below-threshold-fails-only-with-the-iterator] (threshold >= count || threshold == 0) ==> ref(err) == iterr
 //@   ensures [threshold-one-or-two-rejected] threshold < 3 && threshold != 0 && threshold < count ==> err != nil
 //@   ensures [exactly-threshold-points] 3 <= threshold && threshold < count && err == nil ==> len(out) == threshold
 //@   ensures [first-point-kept] 3 <= threshold && threshold < count && err == nil ==> out[0].X == px(it, 0) && out[0].Y == py(it, 0)
